@@ -57,6 +57,7 @@ const (
 	opClose
 	opAdv6
 	opAdv31
+	opRemPending
 	c10NumOps
 )
 
@@ -64,7 +65,7 @@ func c10OpName(op int) string {
 	if op < len(c10Adds) {
 		return "Add(" + c10Adds[op].String() + ")"
 	}
-	return [...]string{"Read(1)", "Read(2)", "ReadInflight(1)", "ReadInflight(2)", "Remove(oldest-handed)", "Remove(newest-handed)", "Remove(unknown)", "Replace(oldest-handed-qos2)", "Init(clean)", "Init(resume)", "Close", "Advance(6s)", "Advance(31s)"}[op-len(c10Adds)]
+	return [...]string{"Read(1)", "Read(2)", "ReadInflight(1)", "ReadInflight(2)", "Remove(oldest-handed)", "Remove(newest-handed)", "Remove(unknown)", "Replace(oldest-handed-qos2)", "Init(clean)", "Init(resume)", "Close", "Advance(6s)", "Advance(31s)", "Remove(next in-flight entry not replayed yet)"}[op-len(c10Adds)]
 }
 
 const c10ReadLimit = 60
@@ -152,6 +153,17 @@ func (r *refQueue) dump() string {
 	return sb.String()
 }
 
+// nextPending: index of the first in-flight entry that the replay after Init(resume) has
+// not handed out yet, -1 if none.
+func (r *refQueue) nextPending() int {
+	for i := r.replay; i < len(r.items); i++ {
+		if r.items[i].id != 0 && !r.items[i].handed {
+			return i
+		}
+	}
+	return -1
+}
+
 func (r *refQueue) handedIDs() []uint16 {
 	var ids []uint16
 	for _, it := range r.items {
@@ -234,6 +246,8 @@ func (s *c10Sys) enabled(op int) bool {
 		return len(r.handedIDs()) >= 2
 	case op == opRemUnknown:
 		return r.open
+	case op == opRemPending:
+		return r.open && !r.drained && r.pending == 0 && r.nextPending() >= 0
 	case op == opReplace:
 		for _, it := range r.items {
 			if it.handed && !it.pubrel && it.spec.qos == 2 {
@@ -598,6 +612,30 @@ func (s *c10Sys) apply(op int) {
 				break
 			}
 		}
+	case op == opRemPending:
+		// the acknowledgement of an in-flight entry arrives before the replay reached it.
+		// The statement leaves open whether that completes the entry or whether it is still
+		// replayed; the reference follows what the queue did and requires everything else
+		// (conservation, FIFO, replay of the others, counters) to stay right afterwards.
+		i := r.nextPending()
+		id, d := r.items[i].id, r.items[i].desc()
+		if err := s.q.Remove(id); err != nil {
+			s.viol("remove", "error", "nil", err.Error())
+			return
+		}
+		gone := true
+		if s.list != nil {
+			for _, g := range s.list() {
+				if g == d {
+					gone = false
+				}
+			}
+		}
+		if gone {
+			r.items = append(append([]rItem{}, r.items[:i]...), r.items[i+1:]...)
+			r.qlen--
+			r.infl--
+		}
 	case op == opReplace:
 		for i := range r.items {
 			it := &r.items[i]
@@ -824,7 +862,7 @@ func c10ReplayOn(c *explore.Ctx, backend string, max int, inflExp time.Duration,
 
 func runC10(c *explore.Ctx) {
 	c.Level = "model_checking"
-	c.Rule = "E1: explicit-state BFS (depth-bounded; virtual clock) over Add(6 variants)/Read(1|2 ids)/ReadInflight(1|2)/Remove/Replace/Init(clean|resume)/Close/Advance(6s|31s) on the real mem queue for max in {1,2,3} x inflight expiry in {0,30s}, and on the real redis queue (redigo against the in-process RESP server; max in {1,2}, thorough also 3; the redis list is read from the server after every op); callers respect the documented preconditions (ReadInflight drained before Read, Init only after Close); a blocking Read is a thread whose release by Add/Close is part of the state. After every op: private list / redis list contents == reference list (conservation), length <= max, outputs explained by the reference (FIFO, ids, expired/oversize never returned, replay after resume, drop ladder), sum of notifier deltas == contents."
+	c.Rule = "E1: explicit-state BFS (depth-bounded; virtual clock) over Add(6 variants)/Read(1|2 ids)/ReadInflight(1|2)/Remove (handed-out id, unknown id, in-flight entry not replayed yet)/Replace/Init(clean|resume)/Close/Advance(6s|31s) on the real mem queue for max in {1,2,3} x inflight expiry in {0,30s}, and on the real redis queue (redigo against the in-process RESP server; max in {1,2}, thorough also 3; the redis list is read from the server after every op); callers respect the documented preconditions (ReadInflight drained before Read, Init only after Close); a blocking Read is a thread whose release by Add/Close is part of the state. After every op: private list / redis list contents == reference list (conservation), length <= max, outputs explained by the reference (FIFO, ids, expired/oversize never returned, replay after resume, drop ladder), sum of notifier deltas == contents."
 	c.Trusted = []string{"vsched virtual clock / Cond semantics", "statekey.Dump", "reference list model written from the property statement and the documented inflight_expiry semantics"}
 	c.Assumptions = []string{"queue counters are compared from the last Init(clean) on (Init(clean) discards contents without notifier deltas; the broker resets the statistics of a terminated session separately)"}
 	if rc := replayCase(c); rc != nil {
